@@ -111,7 +111,7 @@ def run(pid, tier, seed, replay=None):
         ck.cov["distinct_nontrivial"] = ncases
         ck.cov["rule"] = ("every leaf state of MC_Eval (order x knot vector family x lattice point) is one case; each is "
                           "replayed 1-D through all entry points under two affine maps and two padding fills, knots are "
-                          "approached from the side whose piece must be used, and cases are tensored into 2..%d-D tables "
+                          "approached from the side whose piece must be used, and cases are tensored into constant-order tables of 1..9 dimensions (every affordable dimension count x order) and into random 2..%d-D tables "
                           "with six coefficient patterns; distinct = distinct TLC leaf states" % maxdim)
         ck.assumptions += ["rounding bound (T + sum 4(n_d+1) + 8) * u * M, M from exact rows (DESIGN 3.3)",
                            "long double accumulation of the exact rational rows in the driver",
